@@ -313,7 +313,7 @@ func init() {
 	ext("C16", "registration atomicity through the real registerService: a failing registration leaves the published snapshot pointer-identical and the routing state unchanged (histories of C11)",
 		HarnessSpec{Name: "VerifH_registry", Covers: []string{"failed-registration", "register-local-twice"}})
 	ext("C19", "config-rule vs annotation: 3 rule shapes x every ASCII path of 1..8 bytes x {GET, POST}, two muxes built through NewMux(ServiceConfigOption) + registerService vs annotation + registerService",
-		HarnessSpec{Name: "VerifH_config_vs_annotation", Covers: []string{"dispatched", "dispatched-by-rule", "not-dispatched", "only-star-selector"}})
+		HarnessSpec{Name: "VerifH_config_vs_annotation", Covers: []string{"dispatched", "dispatched-by-rule", "not-dispatched", "only-star-selector", "rejected-alike"}})
 
 	ext("C06", "gRPC bidirectional stream through serveGRPC: k<=2 request frames of 0..2 symbolic bytes, every partition of bodies <=6 bytes into reads (greedy chunks beyond), truncation of the last 1..2 bytes, j<=2 reply frames",
 		HarnessSpec{Name: "VerifH_serveGRPC_stream", Covers: []string{"clean-eof", "truncated", "replies"}})
